@@ -52,6 +52,7 @@ func endorsedPolicy(r polRow) uint64 {
 	}
 	return ProdPolicy
 }
+
 type polOut struct {
 	Err       string `json:"err"`
 	Policy    string `json:"policy"`
